@@ -438,7 +438,7 @@ func runC14(c *core.Ctx) {
 	defer func() {
 		c.Share(map[string]string{"R6.3": "R14.9"}, runC06)
 		c.Share(map[string]string{"R12.1": "R14.10"}, runC12) // a lock leaked by one connection's failure blocks other connections' commands on that stripe  // two requests of one batch under one opaque: a connection receives another connection's reply
-		c.Share(map[string]string{"R17.1": "R14.8"}, runC17) // the in-memory backend is one instance shared by all connections: its map is shared mutable state
+		c.Share(map[string]string{"R17.1": "R14.8"}, runC17)  // the in-memory backend is one instance shared by all connections: its map is shared mutable state
 	}()
 	c.Rule("R14.1", "every package-level variable of the server packages is classified: immutable after initialisation, synchronisation primitive, accessed only through sync/atomic, written only under one mutex, or unique-slot registration (index claimed by an atomic increment); anything else is shared mutable state", 40)
 	c.Rule("R14.2", "a location updated through sync/atomic is never read, copied or written plainly at run time unless under the exclusive lock that all its atomic writers hold; registration-time (init-only) code is exempt", 12)
